@@ -37,6 +37,8 @@ type Prog struct {
 	SSA     *ssa.Program
 	Funcs   []*ssa.Function // all source functions (incl. anonymous) of in-scope module packages, sorted
 	cg      *callgraph.Graph
+	res     *callResolver
+	idx     *idxFacts
 	nInstr  int
 }
 
